@@ -21,6 +21,7 @@ import (
 var prop = flag.String("prop", "C18", "C05|C10|C11|C15|C18")
 var debugHist = flag.String("debughist", "", "")
 var debugScen = flag.Int("debugscen", -1, "print the focus points of one scenario")
+var only = flag.String("only", "", "development aid: explore only the scenarios whose name contains this")
 
 // ---- shared helpers ----
 
@@ -109,6 +110,7 @@ type c18cfg struct {
 	unregAt   time.Duration
 	cutFirst  bool // the link breaks right before the user cancels: the abort message cannot be written
 	bApproves bool // B's user approves at the moment A's user cancels
+	reReg     bool // A's user registers B once more at the moment the established connection ends
 }
 
 func c18Body(c c18cfg) func() {
@@ -129,6 +131,12 @@ func c18Body(c c18cfg) func() {
 		fakews.SetDialFault(func(string, int) bool { return len(fakews.Links()) >= 2 })
 		a.Start()
 		b.Start()
+		// the peer's socket goes away (the local read pump then reports the end of the connection on its own thread)
+		cutter := func() {
+			for _, l := range fakews.Links() {
+				_ = l.Server.Close()
+			}
+		}
 		if c.aCancels {
 			at := c.cancelAt
 			if at == 0 {
@@ -140,9 +148,7 @@ func c18Body(c c18cfg) func() {
 				// the link dies at the moment the user cancels: the transport may already be closed when the abort is written
 				simrt.Mark()
 				simrt.Go("userA", func() { a.Hub.CancelPairingWithSKI(b.SKI) })
-				for _, l := range fakews.Links() {
-					_ = l.Server.Close()
-				}
+				simrt.Go("cutter", cutter)
 				simrt.RunFor(20 * time.Millisecond)
 				simrt.Unmark()
 			case c.bApproves:
@@ -155,9 +161,26 @@ func c18Body(c c18cfg) func() {
 				a.Hub.CancelPairingWithSKI(b.SKI)
 			}
 		}
+		if c.reReg {
+			simrt.RunFor(2 * time.Second)
+			simrt.Mark()
+			simrt.Go("userA", func() { a.Hub.RegisterRemoteSKI(b.SKI) })
+			simrt.Go("cutter", cutter)
+			simrt.RunFor(20 * time.Millisecond)
+			simrt.Unmark()
+		}
 		if c.unregAt > 0 {
 			simrt.RunFor(c.unregAt)
-			a.Hub.UnregisterRemoteSKI(b.SKI)
+			if c.cutFirst {
+				// the connection ends on its own at the moment the user unregisters the peer
+				simrt.Mark()
+				simrt.Go("userA", func() { a.Hub.UnregisterRemoteSKI(b.SKI) })
+				simrt.Go("cutter", cutter)
+				simrt.RunFor(20 * time.Millisecond)
+				simrt.Unmark()
+			} else {
+				a.Hub.UnregisterRemoteSKI(b.SKI)
+			}
 		}
 		if c.cutAfter > 0 {
 			simrt.RunFor(c.cutAfter)
@@ -219,6 +242,9 @@ func c18Scenarios(r *hx.Run) []hx.Scenario {
 		{name: "error-cut", bTrustsA: true, bWaits: true, cutAfter: 0},
 		{name: "local-cancel-broken-link", bTrustsA: false, bWaits: true, aCancels: true, cutFirst: true},
 		{name: "local-cancel-vs-remote-approve", bTrustsA: false, bWaits: true, aCancels: true, bApproves: true},
+		{name: "unregister-broken-link", bTrustsA: true, bWaits: true, unregAt: 2 * time.Second, cutFirst: true},
+		{name: "unregister-pending-broken-link", bTrustsA: false, bWaits: true, unregAt: 2 * time.Second, cutFirst: true},
+		{name: "register-again-broken-link", bTrustsA: true, bWaits: true, reReg: true, cutFirst: true},
 	}
 	var out []hx.Scenario
 	for _, c := range cfgs {
@@ -231,7 +257,7 @@ func c18Scenarios(r *hx.Run) []hx.Scenario {
 		if c.cutFirst || c.bApproves {
 			// the user operation races with the transport / the peer: branch among the user thread and the pumps
 			out = append(out, hx.Scenario{Name: "c18:race:" + c.name, Body: c18Body(c), Bounds: simrt.B(pb, 0, 0),
-				Cfg: simrt.Config{MaxSteps: 100000, BranchAfterMark: true, BranchOnly: []string{"user", "readShipPump", "writeShipPump"}}})
+				Cfg: simrt.Config{MaxSteps: 100000, BranchAfterMark: true, BranchOnly: []string{"user", "cutter"}}})
 			continue
 		}
 		out = append(out, hx.Scenario{Name: "c18:timely:" + c.name, Body: c18Body(c), Bounds: simrt.B(pb, 0, 0),
@@ -459,6 +485,15 @@ func main() {
 		scens = c20Scenarios(r)
 	default:
 		hx.EngineError("unknown -prop %s", *prop)
+	}
+	if *only != "" {
+		var f []hx.Scenario
+		for _, sc := range scens {
+			if strings.Contains(sc.Name, *only) {
+				f = append(f, sc)
+			}
+		}
+		scens = f
 	}
 	if r.Worker {
 		hx.SWorker(scens)
